@@ -95,12 +95,19 @@ def run_pyvc(rep: Report, keys, native_limit=150):
     from .pyvc import spec as S
     prefix = rep.prop + "."
     keys = [k for k in keys if not S.CONTRACTS[k].assumed]
+    on_timeout = lambda job: ([Result(prefix + job[0].split(":")[1], UNDECIDED, function=job[0], backend="pyvc",
+                                      output="verification of this function exceeded %d s of wall time and was abandoned (no verdict)" % FUNC_DEADLINE_S)],
+                              {"key": job[0], "source": "", "assumed": [], "used": [], "paths": 0, "time": FUNC_DEADLINE_S})
+    # functions with many paths (contract flag heavy=True) go first, one at a time, their obligations spread over all cores
+    heavy = [k for k in keys if getattr(S.CONTRACTS[k], "heavy", False)]
+    outs = []
+    for k in heavy:
+        os.environ["VERIF_INNER_PAR"] = str(NPROC)
+        outs += pool_map_deadline(_verify_one, [(k, prefix)], FUNC_DEADLINE_S, on_timeout)
+    rest = [k for k in keys if k not in heavy]
     # few functions: spend the idle cores inside each function (obligations discharged in forked children)
-    os.environ["VERIF_INNER_PAR"] = str(max(1, NPROC // max(1, len(keys))))
-    outs = pool_map_deadline(_verify_one, [(k, prefix) for k in keys], FUNC_DEADLINE_S,
-                             lambda job: ([Result(prefix + job[0].split(":")[1], UNDECIDED, function=job[0], backend="pyvc",
-                                                  output="verification of this function exceeded %d s of wall time and was abandoned (no verdict)" % FUNC_DEADLINE_S)],
-                                          {"key": job[0], "source": "", "assumed": [], "used": [], "paths": 0, "time": FUNC_DEADLINE_S}))
+    os.environ["VERIF_INNER_PAR"] = str(max(1, NPROC // max(1, len(rest))))
+    outs += pool_map_deadline(_verify_one, [(k, prefix) for k in rest], FUNC_DEADLINE_S, on_timeout)
     for results, meta in outs:
         rep.extend(results)
         rep.function(meta["key"], meta["source"])
